@@ -4,6 +4,7 @@ import (
 	"bytes"
 	"errors"
 	"io"
+	"sort"
 	"strconv"
 	"strings"
 
@@ -146,7 +147,15 @@ func newSVGContext(root *html.Node, baseURL string, urlFetcher utils.UrlFetcher)
 
 // Handle inheritance of different defined elements lists.
 func (tree *svgContext) inheritDefs() {
-	for _, element := range tree.defs {
+	// iterate in a fixed order : with cyclic references, the result
+	// depends on the element visited first
+	ids := make([]string, 0, len(tree.defs))
+	for id := range tree.defs {
+		ids = append(ids, id)
+	}
+	sort.Strings(ids)
+	for _, id := range ids {
+		element := tree.defs[id]
 		if t := element.tag; t == "linearGradient" || t == "radialGradient" || t == "pattern" {
 			tree.inheritElement(element)
 		}
